@@ -518,6 +518,11 @@ def _process(cls: t.Type[PaneBase], opts: PaneOptions):
         if '__init__' in cls.__dict__:
             raise TypeError(f"Can't overwrite __init__ function in class {cls.__name__}")
         _make_init(cls, fields)
+    if '__origin__' in cls.__dict__ and PANE_BOUNDVARS in cls.__dict__:
+        # a specialisation made by `_make_subclass` (same fields, same options) inherits the comparison
+        # and hash methods of the generic class: generated ones are equivalent, explicit ones are kept
+        return cls
+
     # (before `__eq__` is generated: whether `__hash__` is explicit depends on an `__eq__` in the class body)
     _maybe_make_hash(cls, fields)
     if opts.eq and '__eq__' not in cls.__dict__:
